@@ -97,6 +97,7 @@ prop(
     technique="guard monitor (independent recomputation of the liquidation ratio incl. oracle override) + payout oracle over the transaction's transfer log",
     design_ref="DESIGN.md §4 C06",
     rule="evaluations = Liquidate calls that succeeded or were refused by the margin guard. R0 engine MarginRatio query vs recomputation (+-1); R1 success only if the recomputed ratio <= maintenance; "
+         "the recomputation uses the stored position, the monitor's own funding checkpoints and cumulative fraction, the vAMM's spot quote and the 15-minute TWAP notional, which is cross-checked against (and on disagreement replaced by) the value computed from the monitor's own end-of-block reserve timeline; "
          "R2 full: position removed, liquidator gets half of quote*fee (+-1), trader nothing, remaining margin to insurance (+-1); R3 partial: |size| shrinks by exactly floor(|size|*p/D), no flip/growth, liquidator and insurance get half the penalty each. "
          "distinct = (path or refusal, direction, deciding ratio spot/TWAP/oracle, distance-to-boundary bucket, caller kind, oracle kind).",
     essential=["full-liquidations", "partial-liquidations", "refused-by-guard", "R0-ratio-compared"],
